@@ -384,3 +384,11 @@ def maybe_solve_twice(rnd, scn, p=0.08):
         scn["solve_twice"] = True
         scn["meta"]["lifecycle"] = "solve_twice"
     return scn
+
+
+def maybe_sibling(rnd, scn, p=0.1):
+    """With probability p a second TDGLSolver is constructed on the same Device object (before or after
+    the solver under test) with another applied field, and kept alive during the run."""
+    if rnd.random() < p:
+        scn["sibling"] = {"when": rnd.choice(["before", "after"]), "field": {"kind": "const", "B": rnd.choice([0.3, 0.7, 1.5])}}
+    return scn
